@@ -298,6 +298,9 @@ func runC12(t *testing.T, c HandleCase) (*h.Violation, h.Info) {
 				commit(pending)
 				return true
 			}
+			if closed && i >= 3 {
+				return true // (a closed store may decline to poll for good: nothing to drain, nothing acknowledged)
+			}
 			time.Sleep(100 * time.Microsecond)
 		}
 		return false
@@ -336,6 +339,11 @@ func runC12(t *testing.T, c HandleCase) (*h.Violation, h.Info) {
 		// no older flight in progress (see drain), and it must have succeeded
 		err := st.Refresh(context.Background())
 		installing.Add(-1)
+		if err != nil && closed {
+			// a closed store may decline to poll: then nothing was installed and nothing is acknowledged
+			info.Class("closed-store-declined-a-refresh")
+			return
+		}
 		if err != nil {
 			fail("harness", "Refresh failed although the service is healthy: %v", err)
 			return
@@ -371,6 +379,10 @@ func runC12(t *testing.T, c HandleCase) (*h.Violation, h.Info) {
 				continue
 			}
 			hd, err := st.LookupSecret(context.Background(), ev.Name)
+			if err != nil && closed {
+				info.Class("closed-store-declined-a-lookup") // (it may: no handle was obtained, nothing to hold it to)
+				continue
+			}
 			if err != nil {
 				fail("harness", "lookup %q: %v", ev.Name, err)
 				break
@@ -448,6 +460,9 @@ func runC12(t *testing.T, c HandleCase) (*h.Violation, h.Info) {
 			info.Class("reads-while-poll-parked")
 		case "double-lookup":
 			// two lookups of DIFFERENT unknown names whose requests overlap: each must get its own secret
+			if closed {
+				continue // (a closed store may decline new lookups; the gates below would wait for requests that never come)
+			}
 			var names []string
 			for _, n := range []string{"u1", "u2", "u3"} {
 				if !known[n] && len(names) < 2 {
@@ -683,6 +698,9 @@ func runC12(t *testing.T, c HandleCase) (*h.Violation, h.Info) {
 			doPoll(true)
 			svc.OnRequest = nil
 		case "parked-lookup":
+			if closed {
+				continue
+			}
 			name := ""
 			for _, n := range []string{"u1", "u2", "u3"} {
 				if !known[n] {
